@@ -88,6 +88,7 @@ theorem altsLoop_ok (name : String) (alts : List Alt) (i : Nat) (s : St Ty)
     simp only [altsLoop] at h0 ⊢
     cases h1 : altType env rec a s with
     | mk r1 s1 =>
+      rw [h1] at h0
       cases r1 with
       | ok t =>
         simp only at h0 ⊢
@@ -129,6 +130,7 @@ theorem typeRef_keys (r : TyRef Tpl) (s : St Ty) (hi : KeysOK G s) : KeysOK G (t
   cases h1 : symTypes env rec r.holes s with
   | mk r1 s1 => rw [h1] at g; cases r1 <;> exact g
 
+omit h in
 /-- the state `ntBody` ends in is the state its loop / `type_ref` ends in -/
 theorem ntBody_state (nt : Nt Tpl) (s : St Ty) :
     (ntBody env rec nt s).2 =
